@@ -8,6 +8,7 @@ package props
 
 import (
 	"context"
+	"errors"
 	"fmt"
 	"runtime"
 	"strings"
@@ -272,12 +273,14 @@ func TestC09StalledWriteEnd(t *testing.T) {
 		p.C.SetInboundWindow(window)
 		p.C.StallInbound(true)
 		type res struct {
-			kind string
-			err  error
-			at   time.Time
+			kind   string
+			queued bool // started behind the stalled writer
+			err    error
+			at     time.Time
 		}
 		results := make(chan res, 8)
-		send := func(kind string) {
+		dropsBefore := w.conn.Metrics().DataMsgDropNotSelectedCount()
+		send := func(kind string, queued bool) {
 			ctx, cancel := ctxT(40 * time.Second)
 			defer cancel()
 			var e error
@@ -293,12 +296,12 @@ func TestC09StalledWriteEnd(t *testing.T) {
 					e = errAsyncAccepted
 				}
 			}
-			results <- res{kind, e, time.Now()}
+			results <- res{kind, queued, e, time.Now()}
 		}
-		go send("syncNoW")
+		go send("syncNoW", false)
 		time.Sleep(20 * time.Millisecond) // the first sender is inside the transport write now
 		for _, k := range kinds {
-			go send(k)
+			go send(k, true)
 		}
 		time.Sleep(20 * time.Millisecond)
 		logf("1 sender mid-write, %d behind it", extra)
@@ -322,9 +325,22 @@ func TestC09StalledWriteEnd(t *testing.T) {
 				if r.err == nil {
 					fail("a %s send returned success although the peer never read a byte of it", r.kind)
 				}
+				// a send that was queued for the write lock when the generation ended was accepted while
+				// the session was Selected: it ends with the connection-closed error (C09), not with the
+				// "not selected" refusal of a send that was never admitted - and it is no counted drop
+				// (only for Close: there the stalled writer keeps the write lock until teardown has cancelled
+				// the generation and closed the socket. When the PEER ends the link the stalled write fails
+				// first and a queued one may legitimately meet the dead socket - a write error - or the
+				// documented write-boundary re-check before teardown has begun.)
+				if end == "close" && r.queued && r.kind != "async" && !errors.Is(r.err, hsms.ErrConnClosed) && !errors.Is(r.err, context.DeadlineExceeded) {
+					fail("a %s send queued behind the stalled write when Close ended the generation returned %v, want the connection-closed error", r.kind, r.err)
+				}
 			case <-deadline:
 				fail("%d of %d sends of the ended generation (mid-write or queued for the write lock) have not returned 3 s after %s (write timeout is 20 s)", pendingN-i, pendingN, end)
 			}
+		}
+		if d := w.conn.Metrics().DataMsgDropNotSelectedCount() - dropsBefore; d != 0 && end == "close" {
+			fail("%d sends that were admitted while Selected were counted as not-selected drops when the generation ended", d)
 		}
 		if end == "close" {
 			select {
@@ -503,3 +519,117 @@ func TestC09CloseAtRetry(t *testing.T) {
 }
 
 var spinSink atomic.Int64
+
+// TestC09BusyHandlerEnd: a generation ends while the application's data handler (which runs inline
+// on the receive path) is still busy, so the generation's goroutines take a while to unwind. Sends
+// that are waiting for their reply must not wait for that: they complete with the connection-closed
+// error at the instant the generation ends.
+func TestC09BusyHandlerEnd(t *testing.T) {
+	ev.Rule("HSMS-SS, both roles, virtual time; T3 5 s, close timeout 2 s; the data handler sleeps 300-1500 ms on a trigger message; 1-4 reply-expected sends are waiting for their replies (the peer never answers); then the generation is ended by a peer reset, a peer close or Close. Oracle: every waiting send returns ErrConnClosed no later than 20 ms (virtual) after Close was called, or 20 ms after the busy handler returned when the peer ended the link (the receive path cannot notice earlier) - not at T3, not at the close timeout; non-trivial = always")
+	vt.Bubble(t, func(t *testing.T) {
+		vt.CheckBubble(t, 600, 30000, func(rt *rapid.T) {
+			active := rapid.Bool().Draw(rt, "active")
+			busy := time.Duration(rapid.SampledFrom([]int{300, 800, 1500}).Draw(rt, "handlerBusyMs")) * time.Millisecond
+			n := rapid.IntRange(1, 4).Draw(rt, "waiting")
+			end := rapid.SampledFrom([]string{"peer-reset", "peer-close", "close"}).Draw(rt, "end")
+			w, err := newWorld(worldOpt{active: active, connOpts: []hsms.ConnOption{hsms.WithT3(5 * time.Second), hsms.WithT5(time.Hour), hsms.WithReconnectBackoff(time.Hour, 1), hsms.WithT6(10 * time.Second),
+				hsms.WithT7(time.Hour), hsms.WithT8(time.Hour), hsms.WithCloseTimeout(2 * time.Second)}})
+			if err != nil {
+				rt.Fatalf("VERIF-INFRA: %v", err)
+			}
+			w.conn.AddDataMessageHandler(func(m *hsms.DataMessage, _ hsms.SECS2Endpoint) {
+				if m.Stream() == 99 {
+					time.Sleep(busy)
+				}
+			})
+			var p *netsim.Peer
+			var bg sync.WaitGroup
+			defer func() {
+				bg.Wait()
+				_ = w.conn.Close()
+				if p != nil {
+					p.Close()
+				}
+				if w.ln != nil {
+					_ = w.ln.Close()
+				}
+				synctest.Wait()
+			}()
+			if err := w.conn.Open(context.Background(), hsms.OpenBackground); err != nil {
+				rt.Fatalf("VERIF-INFRA: %v", err)
+			}
+			if p, err = w.peerUp(time.Second); err != nil {
+				rt.Fatalf("VERIF-INFRA: %v", err)
+			}
+			if active && w.ln != nil {
+				_ = w.ln.Close()
+			}
+			if err := w.selectAsPeer(p, 99); err != nil {
+				rt.Fatalf("VERIF-INFRA: %v", err)
+			}
+			type res struct {
+				err error
+				at  time.Time
+			}
+			results := make(chan res, n)
+			for i := 0; i < n; i++ {
+				bg.Add(1)
+				go func(i int) {
+					defer bg.Done()
+					_, e := w.conn.SendDataMessage(context.Background(), 1, 1, true, secs2.A(fmt.Sprintf("waiting-%d", i)))
+					results <- res{e, time.Now()}
+				}(i)
+			}
+			synctest.Wait()
+			_ = p.Send(e37.DataFrame(0xffff, 99, 1, false, 0x9901, nil)) // the handler is now busy
+			synctest.Wait()
+			time.Sleep(10 * time.Millisecond)
+			endAt := time.Now()
+			closeDone := make(chan error, 1)
+			switch end {
+			case "peer-reset":
+				p.C.Reset()
+				_ = p.C.Close()
+			case "peer-close":
+				_ = p.C.Close()
+			case "close":
+				bg.Add(1)
+				go func() { defer bg.Done(); closeDone <- w.conn.Close() }()
+			}
+			// Close ends the generation at once. A peer reset / close is only NOTICED when the receive
+			// path reads again, i.e. when the busy handler has returned: that is when the generation ends.
+			bound := 20 * time.Millisecond
+			if end != "close" {
+				bound += busy
+			}
+			time.Sleep(bound)
+			synctest.Wait()
+			for i := 0; i < n; i++ {
+				select {
+				case r := <-results:
+					if !errors.Is(r.err, hsms.ErrConnClosed) {
+						rt.Fatalf("C09 violated (active=%v end=%s handler busy %v): a send waiting for its reply when the generation ended returned %v, want the connection-closed error", active, end, busy, r.err)
+					}
+					if d := r.at.Sub(endAt); d > bound {
+						rt.Fatalf("C09 violated (active=%v end=%s handler busy %v): a send waiting for its reply returned %v after the generation ended (bound %v)", active, end, busy, d, bound)
+					}
+				default:
+					rt.Fatalf("C09 violated (active=%v end=%s handler busy %v): %d of %d sends waiting for their replies have not returned %v after the end (they wait for the close timeout or T3)", active, end, busy, n-i, n, bound)
+				}
+			}
+			if end == "close" {
+				select {
+				case e := <-closeDone:
+					_ = e
+				case <-time.After(3 * time.Second):
+					rt.Fatalf("C09 violated: Close did not return within the close timeout + 1 s while a handler was busy for %v", busy)
+				}
+			}
+			role := "passive"
+			if active {
+				role = "active"
+			}
+			ev.Case(true, fmt.Sprint(active, busy, n, end), func() any { return fmt.Sprintf("%s, handler busy %v, %d waiting sends, ended by %s", role, busy, n, end) }, "c09h:end:"+end)
+		})
+	})
+}
